@@ -108,6 +108,26 @@ func genC15(seed uint64, tier string) *Plan {
 				k := r.Intn(len(nt.Fields))
 				nt.Fields = append(nt.Fields[:k:k], nt.Fields[k+1:]...)
 			}
+			// redefine: same name, another expression (the stored values of the
+			// old expression must not be inherited)
+			if len(nt.Fields) > 0 && r.Bool(0.3) {
+				k := r.Intn(len(nt.Fields))
+				ne := genFieldExpr(r, u, nil, 2)
+				dup := false
+				for _, ex := range nt.Fields {
+					if resolvedSQL(&nt, ex.E) == resolvedSQL(&nt, ne) {
+						dup = true
+					}
+				}
+				for _, old := range p.Tables[ti].Fields {
+					if resolvedSQL(&nt, old.E) == resolvedSQL(&nt, ne) {
+						dup = true
+					}
+				}
+				if !dup {
+					nt.Fields[k] = FieldDef{Name: nt.Fields[k].Name, E: ne}
+				}
+			}
 			// add
 			for a := 0; a < r.Range(0, 2); a++ {
 				fd := FieldDef{Name: fmt.Sprintf("n%d", fresh)}
@@ -160,6 +180,7 @@ func genC15(seed uint64, tier string) *Plan {
 		// (a virtual clock does not survive a restart, and with it the window)
 		p.Ops = append(p.Ops, Op{K: "restart", Dt: int64(time.Millisecond)}, Op{K: "check", Dt: 1000})
 	}
+	maybeYield(r, p, 0.4)
 	return p
 }
 
